@@ -1,15 +1,22 @@
-import Eru.Cluster2.ProofsCreate
+import Eru.Cluster2.ProofsLeak
 /-
 C14 — a crash during deployment is repaired by recovery.
 
 Model: `Eru/Cluster2/Recovery.lean` (steps of `cluster/calcium/create.go`, handlers of
 `cluster/calcium/wal.go`, replay of `wal/hydro.go`).  Spec: `Eru/Cluster2/Spec.lean`.
+
+Scope: crashes of a FAULT-FREE deployment (`createSteps`), at every step index.  Crashes that
+happen while a failed deployment is running its rollback path (RollbackAlloc, removal of a failed
+instance) are outside `createSteps`; they are covered only in so far as the executed steps form
+a protocol-respecting trace (`crash_recover_valid`).  `ex` = the ids of workloads that were
+recorded but not running before the deployment (stopped by their owner): neither the deployment
+nor recovery touches them, and they are exempt from "recorded ⇒ running".
 -/
 namespace Eru.Props.C14
 open Eru.Cluster (ResAlg)
 open Eru.Cluster2
 
-variable {R : Type} [ResAlg R] [DecidableEq R]
+variable {R : Type} [ResAlg R] [DecidableEq R] {ex : Nat → Prop}
 
 /-- **Crash anywhere, then recover.**  For every start state satisfying `Pre`, every step
 sequence that respects the WAL protocol (`validTrace`: effects only under a pending event,
@@ -18,8 +25,8 @@ every crash index `i`, recovery yields: usage = Σ recorded workloads on every n
 in-progress marker, no pending event, and every instance recorded ⇒ running (so each instance
 is fully created, absent, or a leaked never-logged container). -/
 theorem crash_recover_valid (s0 : St R) (tr : List (Step R)) (i : Nat)
-    (hpre : Pre s0) (hv : validTrace s0 tr = true) :
-    Good (recover (crashAfter i s0 tr)) :=
+    (hpre : Pre ex s0) (hv : validTrace s0 tr = true) :
+    Good ex (recover (crashAfter i s0 tr)) :=
   recover_good _ (exec_inv _ s0 (pre_inv s0 hpre) (validTrace_take tr s0 i hv))
 
 /-- **C14 for the deployment code as written (after the fix of D14).**  For every start state
@@ -28,14 +35,14 @@ resources) whose nodes are among the logged ones and whose container ids are fre
 and EVERY crash index `i` (0 … number of steps, beyond = completed deployment): recovery in a
 fresh instance yields consistent usage on every node, no marker, no pending event, and every
 recorded instance running. -/
-theorem crash_recover (s0 : St R) (nodes : List String) (plan : Plan R) (i : Nat) (hpre : Pre s0)
+theorem crash_recover (s0 : St R) (nodes : List String) (plan : Plan R) (i : Nat) (hpre : Pre ex s0)
     (hsub : ∀ e ∈ plan, e.1 ∈ nodes) (hfresh : ∀ j ∈ planIds plan, recorded s0 j = false)
     (hnd : (planIds plan).Nodup) :
-    Good (recover (crashAfter i s0 (createSteps nodes plan))) :=
+    Good ex (recover (crashAfter i s0 (createSteps nodes plan))) :=
   crash_recover_valid s0 _ i hpre (create_valid s0 nodes plan hpre hsub hfresh hnd)
 
 /-- the fixed code respects the WAL protocol (the statement the harness re-checks on every observed trace) -/
-theorem create_respects_protocol (s0 : St R) (nodes : List String) (plan : Plan R) (hpre : Pre s0)
+theorem create_respects_protocol (s0 : St R) (nodes : List String) (plan : Plan R) (hpre : Pre ex s0)
     (hsub : ∀ e ∈ plan, e.1 ∈ nodes) (hfresh : ∀ j ∈ planIds plan, recorded s0 j = false)
     (hnd : (planIds plan).Nodup) : validTrace s0 (createSteps nodes plan) = true :=
   create_valid s0 nodes plan hpre hsub hfresh hnd
@@ -43,11 +50,11 @@ theorem create_respects_protocol (s0 : St R) (nodes : List String) (plan : Plan 
 /-- The invariant behind it ("every committed effect not yet final is covered by a pending
 event") holds after every prefix. -/
 theorem covered_at_every_crash_point (s0 : St R) (tr : List (Step R)) (i : Nat)
-    (hpre : Pre s0) (hv : validTrace s0 tr = true) : Inv (crashAfter i s0 tr) :=
+    (hpre : Pre ex s0) (hv : validTrace s0 tr = true) : Inv ex (crashAfter i s0 tr) :=
   exec_inv _ s0 (pre_inv s0 hpre) (validTrace_take tr s0 i hv)
 
 /-- Recovery alone: whatever state the invariant holds in. -/
-theorem recover_from_inv (s : St R) (h : Inv s) : Good (recover s) := recover_good s h
+theorem recover_from_inv (s : St R) (h : Inv ex s) : Good ex (recover s) := recover_good s h
 
 /-- The exception of the property: a container that survives recovery was not logged
 (its `create-workload` event was not pending at the crash). -/
@@ -80,15 +87,90 @@ theorem surviving_container_unlogged (s : St R) (id : Nat)
         exact ⟨this.1, by simp [pendingCreated_cons, Ev.isCreated, this.2, h2]⟩
   exact key s.wal s h
 
+/-- **The exception, made precise.**  A container that is leaked (in the engine, not recorded)
+after crash + recovery either existed before the deployment or lies in the *window* of the
+executed prefix: its `engineCreate` had been executed and its `logCreated` had not — "created in
+the instant before the crash, not yet logged".  Holds for every protocol-respecting trace
+(`commitCreated` is only enabled for an instance that is fully created or completely absent, so
+"logged and committed" cannot leak). -/
+theorem leak_only_in_window (s0 : St R) (tr : List (Step R)) (i : Nat) (id : Nat)
+    (hv : validTrace s0 tr = true)
+    (hl : leaked (recover (crashAfter i s0 tr)) id = true) :
+    hasCt s0 id = true ∨ id ∈ window (tr.take i) := by
+  simp only [leaked, Bool.and_eq_true, Bool.not_eq_true'] at hl
+  obtain ⟨hnr, hct⟩ := hl
+  obtain ⟨hcs, hnp⟩ := surviving_container_unlogged _ id hct
+  have hrec : recorded (crashAfter i s0 tr) id = false := by
+    have := recorded_recoverL id (crashAfter i s0 tr).wal (crashAfter i s0 tr) hnp
+    have e : recorded (recover (crashAfter i s0 tr)) id = recorded (recoverL (crashAfter i s0 tr) (crashAfter i s0 tr).wal) id := rfl
+    rw [e, this] at hnr; exact hnr
+  have hinv : CtInv s0 (exec s0 (tr.take i)) ((tr.take i).foldl windowStep []) :=
+    ctinv_exec s0 (tr.take i) s0 [] (fun j hj => Or.inl hj) (validTrace_take tr s0 i hv)
+  rcases hinv id hcs with a | a | a | a
+  · exact Or.inl a
+  · have : recorded (crashAfter i s0 tr) id = true := a
+    rw [hrec] at this; cases this
+  · have : pendingCreated (crashAfter i s0 tr).wal id = true := a
+    rw [hnp] at this; cases this
+  · exact Or.inr a
+
+/-- **Every planned instance**, at every crash index of the deployment as written: fully created
+(recorded and running), absent from store and engine, or a leaked container whose creation was
+the last thing that happened to it before the crash (in the canonical sequence `logCreated id`
+directly follows `engineCreate id`, so the crash index lies exactly between the two). -/
+theorem instance_outcome (s0 : St R) (nodes : List String) (plan : Plan R) (i : Nat) (id : Nat) (hpre : Pre ex s0)
+    (hsub : ∀ e ∈ plan, e.1 ∈ nodes) (hfresh : ∀ j ∈ planIds plan, recorded s0 j = false)
+    (hnd : (planIds plan).Nodup) (hex : ¬ ex id) (hnew : hasCt s0 id = false) :
+    let s' := recover (crashAfter i s0 (createSteps nodes plan))
+    full s' id = true ∨ absent s' id = true ∨
+      (leaked s' id = true ∧ id ∈ window ((createSteps nodes plan).take i)) := by
+  intro s'
+  have hv := create_valid s0 nodes plan hpre hsub hfresh hnd
+  have hg : Good ex s' := crash_recover_valid s0 _ i hpre hv
+  cases hr : recorded s' id with
+  | true => left; simp [full, hr, hg.settled id hex hr]
+  | false =>
+    cases hc : hasCt s' id with
+    | false => right; left; simp [absent, hr, hc]
+    | true =>
+      right; right
+      have hl : leaked s' id = true := by simp [leaked, hr, hc]
+      refine ⟨hl, ?_⟩
+      rcases leak_only_in_window s0 _ i id hv hl with a | a
+      · rw [hnew] at a; cases a
+      · exact a
+
 /-! ### D14 (fixed in /repo): the old order of the deferred calls -/
 
 def s0 : St Int := { usage := fun _ => 0 }
 def plan1 : Plan Int := [("n1", [(1, 5)])]
 
+/-- a logged-and-committed instance cannot be a leak: `[engineCreate, logCreated, commitCreated]`
+does NOT respect the protocol -/
+example : validTrace s0 [.engineCreate 1 "n1", .logCreated 1 "n1", .commitCreated 1 "n1"] = false := by decide
+
 /-- the fixed program respects the protocol on the sample deployment … -/
 example : validTrace s0 (createSteps ["n1"] plan1) = true := by decide
 /-- … and `Pre` is satisfiable (non-vacuity of `crash_recover_valid`). -/
-example : Pre s0 := ⟨fun _ => rfl, rfl, rfl, fun _ h => by simp [recorded, s0] at h, by simp [s0]⟩
+example : Pre (fun _ => False) s0 := ⟨fun _ => rfl, rfl, rfl, fun _ _ h => by simp [recorded, s0] at h, by simp [s0]⟩
+
+/-- `Pre` with prior workloads, one of them STOPPED (recorded, container not running): it is
+exempt (`ex`), everything else must be running -/
+def s0prior : St Int :=
+  { usage := fun n => if n = "n1" then 7 else 0,
+    wls := [⟨1001, "n1", 3⟩, ⟨1002, "n1", 4⟩], cts := [⟨1001, "n1", true⟩, ⟨1002, "n1", false⟩] }
+example : Pre (fun id => id = 1002) s0prior := by
+  refine ⟨?_, rfl, rfl, ?_, by decide⟩
+  · intro n
+    by_cases h : "n1" = n
+    · subst h; simp [s0prior, load, loadL, ResAlg.zero]
+    · have h' : ¬ n = "n1" := fun e => h e.symm
+      simp [s0prior, load, loadL, h, h', ResAlg.zero]
+  · intro id hne hr
+    simp [recorded, s0prior] at hr
+    rcases hr with e | e
+    · subst e; decide
+    · exact absurd e.symm hne
 
 /-- **D14.** With the old order (commit `create-processing`, commit `allocate-workload`, THEN
 delete the markers) a crash right after the commits leaves a marker that recovery does not
